@@ -20,13 +20,19 @@ theorem sim_metadataEntry : Sim (α := α) (metadataEntry (α := α)) metadataEn
     | with_reducible apply Sim.bind
     | split)
 
+/-- `metadata_entry` returns a `Metadata` event or nothing -/
+theorem mf_metadataEntry_ret :
+    MF (α := α) (fun r => ∀ ev, r = some ev → ∃ k v, ev = .metadata k v) (metadataEntry (α := α)) := by
+  unfold metadataEntry; mf
+  all_goals (refine MF.pure _ ?_; intro ev h; cases h; exact ⟨_, _, rfl⟩)
+
 /-- the entry `metadata_entry` parses from a block (a function of the block alone) -/
 def entryOf (cs : CharSpec) (ext : Ext) (b : List Tok) : Option (Ev α) :=
   (metadataEntry (α := α) ⟨b, 0, ext, cs, #[], none⟩).1
 
 /-- the metadata events an entry contributes -/
 def newOf : Option (Ev α) → List (Ev α)
-  | some ev => if ev.isMeta then [ev] else []
+  | some ev => if ev.isKey then [ev] else []
   | none => []
 
 theorem entry_indep (cs : CharSpec) (ext : Ext) (b : List Tok) (evs : Array (Ev α)) (p : Option String) :
@@ -82,8 +88,9 @@ theorem parseBlock_meta_head (s0 : BP α) (hk : (s0.toks[s0.cur]?).map (·.kind)
   have hm := (mf_metadataEntry (α := α)).run s0
   unfold parseBlock
   simp only [bind, StateT.bind, peekK_run, hk]
+  have hret := ((mf_metadataEntry_ret (α := α)).run s0).2
   rcases hme : metadataEntry (α := α) s0 with ⟨e, s1⟩
-  rw [hme] at hm
+  rw [hme] at hm hret
   have hother : ∀ s : BP α, metaOf s.evs = metaOf s0.evs →
       metaOf ((match ((none : Option (Ev α)), s) with
         | (a, s) => (match a with
@@ -97,16 +104,11 @@ theorem parseBlock_meta_head (s0 : BP α) (hk : (s0.toks[s0.cur]?).map (·.kind)
     · simpa [newOf] using hother { s1 with cur := s0.cur } hm.1
     · simp only [StateT.bind, hme]; rfl
   | some ev =>
-    cases ev with
-    | metadata k v =>
-      rw [withRecover_some (s2 := s1) (a := .metadata k v)]
-      · show metaOf (s1.evs.push (.metadata k v)) = _
-        rw [metaOf_push, hm.1]; rfl
-      · simp only [StateT.bind, hme, Bool.or_true, if_true]; rfl
-    | _ =>
-      rw [withRecover_none (s2 := s1)]
-      · simpa [newOf, Ev.isMeta] using hother { s1 with cur := s0.cur } hm.1
-      · simp only [StateT.bind, hme]; rfl
+    obtain ⟨k, v, rfl⟩ := hret ev rfl
+    rw [withRecover_some (s2 := s1) (a := .metadata k v)]
+    · show metaOf (s1.evs.push (.metadata k v)) = _
+      rw [metaOf_push, hm.1]; rfl
+    · simp only [StateT.bind, hme, Bool.or_true, if_true]; rfl
 
 theorem parseBlock_tail_nometa (X : P α (Option (Ev α))) (hX : MF NM X) (s0 : BP α) :
     metaOf ((match X s0 with
